@@ -24,6 +24,18 @@ ASSUMPTIONS = ['gradients produced by autograd are contiguous; finiteness is up 
 PARTIAL = ['aliasing/view behaviour of the PyTorch runtime is observed, not modelled']
 
 
+class Linear(torch.nn.Module):
+    """NOT torch.nn.Linear: a user-defined layer that merely shares the class name (equalised learning rate etc.)"""
+
+    def __init__(self, i, o):
+        super().__init__()
+        self.weight = torch.nn.Parameter(torch.randn(o, i) / 2)
+        self.bias = torch.nn.Parameter(torch.zeros(o))
+
+    def forward(self, x):
+        return torch.nn.functional.linear(x, self.weight * 0.5, self.bias)
+
+
 def gen_model(rng, dt):
     nn = torch.nn
     conv = rng.random() < 0.35
@@ -35,6 +47,9 @@ def gen_model(rng, dt):
         k = rng.choice([1, 2])
         pad = rng.choice([0, 0, 1])
         cout = rng.choice([1, 3])       # a single output channel: reshaping the output gradient is a view, not a copy
+        big_map = rng.random() < 0.15
+        if big_map:
+            cout = 1                    # (keeps the following Linear layer's A factor small enough to decompose quickly)
         mods['conv'] = nn.Conv2d(cin, cout, k, padding=pad, bias=rng.random() < 0.5)
         mods['bn'] = nn.BatchNorm2d(cout)
         if rng.random() < 0.5:
@@ -42,7 +57,7 @@ def gen_model(rng, dt):
         mods['act0'] = nn.ReLU()
         mods['flat'] = nn.Flatten()
         # sometimes a feature map with more than 1024 output positions (any sub-sampling / chunking threshold)
-        side = 36 if rng.random() < 0.15 else 4
+        side = 34 if big_map else 4
         feat = cout * (side + 2 * pad - k + 1) ** 2
     else:
         feat = 4
@@ -57,6 +72,8 @@ def gen_model(rng, dt):
     mods['adapter_module'] = adapter
     mods['frozen'] = nn.Linear(5, 5)
     mods['partly'] = nn.Linear(5, 4)
+    if rng.random() < 0.4:
+        mods['eqlr'] = Linear(4, 4)        # unsupported module named like a supported one
     mods['head'] = nn.Linear(4, 3, bias=rng.random() < 0.7)
     order = list(mods)
     m = nn.Sequential()
